@@ -14,8 +14,10 @@ def run(chk, replay=None):
         "T10Data.tla is a transcription of the parameter-data tables of SPC-4/SBC-3/SMC-3/MMC-6 from memory; buffers "
         "are produced by untrusted Python generators and TLC re-derives every expected value from the bytes; buffers "
         "whose embedded lengths are not honest are skipped (counted as unjudged)",
-        "not judged: ATA Information VPD page 89h (SAT-3 offsets not reconstructed with certainty), READ CD sector "
-        "layouts (covered for termination by C11 only), REPORT PRIORITY descriptors beyond the header",
+        "not judged: ATA Information VPD page 89h (SAT-3 offsets not reconstructed with certainty), REPORT PRIORITY "
+        "descriptors beyond the header; READ CD is judged for the selections F8h / 10h / 20h on CD-DA, Mode 1, Mode 2 "
+        "formless and Mode 2 form 1 sectors with every C2 / sub-channel selection (Mode 2 form 2 and the other "
+        "selection codes are not judged: sizes not reconstructed with certainty)",
         "descriptor counts 0..3, slack 0/1/7 bytes",
     ]
     if replay is not None:
@@ -29,6 +31,28 @@ def run(chk, replay=None):
             buf = datafmt.GEN[fmt](rng)
             events.append(datafmt.unmarshal_event(fmt, buf, dec))
             ev.case((fmt, bytes(buf)), nontrivial=any(buf))
+    # READ CD sector layouts (decoder needs the request parameters)
+    from ..core.lib import mod
+    from ..core.values import flatten
+    K = mod("pyscsi.pyscsi.scsi_cdb_readcd").ReadCd
+    for est in (1, 2, 3, 4):
+        for mcsb in (0x1F, 0x02, 0x04):
+            for c2ei in (0, 1, 2):
+                for scsb in (0, 2, 4):
+                    for tl in ((1, 2) if chk.quick else (1, 2, 3)):
+                        lba = rng.choice([0, 7, 16])
+                        stride = 3072
+                        buf = bytearray(rng.getrandbits(8) for _ in range(tl * stride))
+                        e = {"ev": "Unmarshal", "fmt": "ReadCd", "bytes": list(buf), "out": {}, "exc": "",
+                             "par": {"est": est, "mcsb": mcsb, "c2ei": c2ei, "scsb": scsb, "tl": tl, "lba": lba}}
+                        try:
+                            r = K.unmarshall_datain(bytearray(buf), lba=lba, tl=tl, est=est, mcsb=mcsb, c2ei=c2ei, scsb=scsb)
+                            e["out"] = flatten({str(k): v for k, v in r.items()}) or {"#empty": []}
+                        except Exception as ex:
+                            e["exc"] = type(ex).__name__
+                            e["out"] = {"#empty": []}
+                        events.append(e)
+                        ev.case(("ReadCd", est, mcsb, c2ei, scsb, tl))
     vs, st = tlc.judge_traces("Trace_Data", "Trace_Data.cfg", events, name="c04tr")
     ev.judged("Trace_Data", st, len(events))
     unj = {}
